@@ -13,7 +13,7 @@ BLOCK = 20000
 
 
 def grammars():
-    return S.synthetic_grammars() + S.real_grammars()
+    return S.synthetic_grammars() + S.real_grammars() + [S.mixed_head_grammar()]
 
 
 def oracle_best(M, u, Mt, X, pen, adm_mask=None):
@@ -182,6 +182,8 @@ def plan(tier):
     shards = []
     pens = [0.0, 0.5]
     for gi, g in enumerate(G):
+        if getattr(g, 'mixed', False):
+            continue        # the statement of C01 is about head-uniform grammars
         T = len(g.tags)
         real = g.name.startswith(('en', 'ja'))
         for n in (1, 2, 3) if not real else (1, 2, 3):
